@@ -71,14 +71,21 @@ def sharing_keys(repo, col, R):
     kinds therefore silently merges the selection into one sharing group -- a `.loc([...])` view would train one parameter for all
     selected compartments."""
     fi = repo.method("Module", "_set_controlled_by_param")
+    # the kinds it numbers row by row: the constants the key is compared with for which the catch-all store (`controlled_by_param` of
+    # the nodes := 0, everything in one group) does NOT run -- evaluated on the conditions of the stores, whatever the arrangement of
+    # the if / elif / else is
+    exk = idx.expander(repo, fi)
+    kp = fi.params[1] if len(fi.params) > 1 else "key"
+    cands = idx.constants_compared_with(fi.node, kp)
+    zero_nodes = [s_ for s_ in exk.stores if s_.kind == "sub" and s_.key.op == "const" and s_.key.name == "controlled_by_param" and
+                  s_.value is not None and s_.value.op == "const" and s_.value.name == 0 and
+                  T.find(s_.base, lambda x: x.op == "attr" and x.name == "nodes") is not None]
+    any_store = [s_ for s_ in exk.stores if s_.kind == "sub" and s_.key.op == "const" and s_.key.name == "controlled_by_param"]
     known = set()
-    for n in walk_no_nested(fi.node):
-        if isinstance(n, ast.If) and isinstance(n.test, ast.Compare) and len(n.test.ops) == 1:
-            c = n.test.comparators[0]
-            if isinstance(n.test.ops[0], ast.In) and isinstance(c, (ast.List, ast.Tuple, ast.Set)):
-                known |= {e.value for e in c.elts if isinstance(e, ast.Constant)}
-            elif isinstance(n.test.ops[0], ast.Eq) and isinstance(c, ast.Constant):
-                known.add(c.value)
+    for c_ in cands:
+        active = lambda s_: all(idx.guard_truth(g, kp, c_) is not False for g in s_.guards)
+        if any(active(s_) for s_ in any_store) and not any(active(s_) for s_ in zero_nodes):
+            known.add(c_)
     if not {"comp", "branch", "cell"} <= known:
         raise AnalysisError(f"_set_controlled_by_param: the kinds it numbers were not recognised ({sorted(known)})")
     n_calls = 0
